@@ -69,6 +69,9 @@ def stream_case(draw, tier="quick"):
     if axis_streams:
         fes = draw(st.lists(st.sampled_from(AXIS_STREAM_FRONTENDS), min_size=2, max_size=4, unique=True))
     extra = {}
+    if not axis_streams and draw(st.integers(0, 3)) == 0:
+        pool = {"time": ["t_utc", "obs_time"], "z": ["depth", "pressure"], "lat": ["latitude", "y"], "lon": ["longitude", "x"]}
+        extra["names"] = {k: draw(st.sampled_from(v)) for k, v in pool.items() if draw(st.integers(0, 3)) != 0}
     if any(v is None for ax in tbl["axes"].values() for v in ax) and draw(st.booleans()):
         extra["axes_masked"] = draw(st.sampled_from([0.0, 5.0, -9999.0]))
     return {**extra, "table": tbl, "contexts": ctxs, "style": draw(st.sampled_from(["iso", "datetime"])), "frontends": fes,
@@ -165,10 +168,31 @@ def run_frontend(fe, case):
             m = np.isnan(axes[k])
             axes[k] = np.ma.MaskedArray(np.where(m, float(case["axes_masked"]), axes[k]), mask=m)
     tarr = sg.np_time(tbl["t"]) if tbl["t"] is not None else None
+    # the time / depth / position columns under names of the user's choosing, handed to the stream's constructor; columns
+    # that carry the *default* names are then ordinary (here: misleading) columns
+    names = case.get("names") or {}
+    nkw = {k: names[k] for k in ("time", "z", "lat", "lon") if k in names}
+
+    def renamed_df(df):
+        if not names:
+            return df
+        df = df.rename(columns=names)
+        for k in names:
+            df[k] = 999.0 if k != "time" else np.arange(len(df))[::-1]
+        return df
+
+    def renamed_ds(ds):
+        if not names:
+            return ds
+        ds = ds.rename({k: v for k, v in names.items() if k in ds.variables or k in ds.dims})
+        dim = next(iter(ds[next(iter(tbl["cols"]))].dims))
+        for k in names:
+            ds[k] = (dim, np.full(tbl["n"], 999.0) if k != "time" else np.arange(tbl["n"], dtype="float64")[::-1])
+        return ds
     with warnings.catch_warnings():
         warnings.simplefilter("ignore")
         if fe == "pandas":
-            return observe(list(PandasStream(sg.make_df(tbl)).run(Config(cfg)))), None
+            return observe(list(PandasStream(renamed_df(sg.make_df(tbl)), **nkw).run(Config(cfg)))), None
         if fe == "numpy_dict":
             tested = {sid for c in case["contexts"] for sid in c["streams"]}
             inp = {k: sg.np_col(v) for k, v in sg.columns(tbl).items() if k in tbl["cols"] or k in tested}
@@ -179,26 +203,26 @@ def run_frontend(fe, case):
         if fe in ("xarray_coord", "xarray_var", "xarray_coord_axes", "xarray_other_dim"):
             ds = sg.make_xr(tbl, {"xarray_coord": "coord", "xarray_var": "var", "xarray_coord_axes": "coord_axes",
                                   "xarray_other_dim": "other_dim"}[fe])
-            return observe(list(XarrayStream(ds).run(Config(cfg)))), None
+            return observe(list(XarrayStream(renamed_ds(ds), **nkw).run(Config(cfg)))), None
         if fe == "netcdf":
             ds = sg.make_xr(tbl, "coord")
-            return observe(list(NetcdfStream(ds).run(Config(cfg)))), None
+            return observe(list(NetcdfStream(renamed_ds(ds), **nkw).run(Config(cfg)))), None
         if fe in ("netcdf_path", "xarray_path"):
             # a netCDF-3 file on disk (scipy engine); time stored as seconds since the Unix epoch, which is what
             # NetcdfStream (decode_cf=False) assumes
             import os
             import tempfile
-            ds = sg.make_xr(tbl, "coord")
+            ds = renamed_ds(sg.make_xr(tbl, "coord"))
             d = tempfile.mkdtemp(prefix="vf_c05_")
             path = os.path.join(d, "data.nc")
             try:
                 # NetcdfStream reads raw numbers and takes them for epoch seconds; XarrayStream decodes the units (whole
                 # milliseconds keep the decoding exact for sub-second instants)
                 unit = "seconds"
-                enc = {"time": {"units": f"{unit} since 1970-01-01 00:00:00", "dtype": "float64"}} if tbl["t"] is not None else {}
+                enc = {names.get("time", "time"): {"units": f"{unit} since 1970-01-01 00:00:00", "dtype": "float64"}} if tbl["t"] is not None else {}
                 ds.to_netcdf(path, engine="scipy", encoding=enc)
                 cls = NetcdfStream if fe == "netcdf_path" else XarrayStream
-                return observe(list(cls(path).run(Config(cfg)))), None
+                return observe(list(cls(path, **nkw).run(Config(cfg)))), None
             finally:
                 import shutil
                 shutil.rmtree(d, ignore_errors=True)
@@ -305,6 +329,8 @@ def check_stream(case, rec):
         labels.append("axis_column_tested")
     if case.get("axes_masked") is not None:
         labels.append("masked_axis_arrays")
+    if case.get("names"):
+        labels.append("custom_axis_names")
     if not info["has_time"]:
         labels.append("no_time_column")
     elif any(float(v) != int(v) for v in case["table"]["t"]):
